@@ -258,10 +258,14 @@ def rule_c(repo, res, m):
                 for term in (t.values if isinstance(t, ast.BoolOp) and isinstance(t.op, ast.And) and pol else [t]):
                     tt = norm(term)
                     ok = (
-                        (isinstance(term, ast.Call) and dotted(term.func) == "get_auto")
-                        or (isinstance(term, ast.Compare) and len(term.ops) == 1 and isinstance(term.left, ast.Name) and _is_index_local(fn, term.left.id))
-                        or tt in ("parse_code == ParseCodes.sequence_header", "tp is not None")
+                        (pol and isinstance(term, ast.Call) and dotted(term.func) == "get_auto")
+                        or (pol and isinstance(term, ast.Compare) and len(term.ops) == 1 and isinstance(term.left, ast.Name) and _is_index_local(fn, term.left.id))
+                        or tt == "parse_code == ParseCodes.sequence_header"
+                        or (pol and tt == "tp is not None")
                     )
+                    if not ok and not pol:
+                        tt = "not (%s)" % tt
+                        term = ast.parse(tt).body[0].value
                     if not ok:
                         extra.append(short(term, 50))
             res.check(not extra, "C07.c", "unconditional:%s@%d" % (dotted(c.func), sum(1 for o in res.obs if o.key.startswith("unconditional:%s@" % dotted(c.func)))), where, "%s is consulted only under the additional condition(s) %s, which do not come from the data unit being inspected: some sequence headers or pictures of the sequence are then skipped and a feature only they use does not raise the version" % (dotted(c.func), extra), by="guards test the data unit only")
